@@ -1,9 +1,17 @@
 import os
+import regen
 
-# Which DFS variant of the Lean model is compared with the implementation: "current" (the code as it is,
-# F5 included) or "fixed" (after hooks/C15-fix.patch has been committed to /repo). Flip this constant when
-# the fix lands (and set the known_findings.json entry to status "fixed"); VERIF_C15_MODE overrides it.
+# Which DFS variant of the Lean model is compared with the implementation. The F5 fix (cache only cursors whose
+# exploration was not cut by the shared visited set) is in /repo since 04b3fb8, so the live model is "fixed";
+# "current" is the pre-fix DFS, kept in the model for the refutation theorems and for replaying the old defect
+# (VERIF_C15_MODE=current).
 MODEL_MODE = "fixed"
+
+
+def do_regen(ctx):
+    # value provenance of every returned bitmap / every mutating bitmap call in algo/*.go -> Generated/C15Fresh.lean
+    regen.goext("c15", "C15Fresh.lean")
+
 _mode = os.environ.get("VERIF_C15_MODE", MODEL_MODE)
 
 F5_KEY = "C15:componentReachDFS:incomplete-reach-cached-after-visited-skip"
@@ -28,6 +36,13 @@ THEOREMS = {
         "Dawgs.C15.Props.answers_history_independent_refuted",
         "Dawgs.C15.Props.reach_query_terminates_current",
         "Dawgs.C15.Props.c15_full_refuted",
+        "Dawgs.C15.Props.reach_cache_refines_nocache",
+        "Dawgs.C15.Props.public_answers_refine_nocache",
+        "Dawgs.C15.Props.public_answers_history_independent",
+        "Dawgs.C15.Props.results_fresh_fact",
+        "Dawgs.C15.Props.caller_edits_noninterference",
+        "Dawgs.C15.Props.component_graph_topological",
+        "Dawgs.C15.Props.component_graph_acyclic",
         "Dawgs.C15.Props.c15_fixed_of_certificate",
         "Dawgs.C15.Props.c15_fixed_of_tarjan",
         "Dawgs.C15.Props.c15_fixed",
@@ -80,16 +95,39 @@ def finding_key(suite, ops, line, msg):
     return "C15:%s:%s" % (site, cls)
 
 
+# property clause -> theorem that proves it for ALL graphs / histories / capacities (live code) | what is only searched
+CLAUSES = {
+    "components partition the node set": "tarjan_partition, tarjan_scc (IsSCC.cover/disjoint/nonempty)",
+    "same component <=> mutually reachable": "tarjan_scc (IsSCC.same_iff) = tarjan_correct + sccCert_sound, on the stack-machine transcription itself",
+    "component graph acyclic": "tarjan_scc (IsSCC.acyclic, condensation of the partition) and component_graph_topological / component_graph_acyclic "
+                               "(the digraph NewComponentGraph builds: every edge goes to a smaller component id)",
+    "can-reach = BFS": "bidir_reachable_correct (component level) + c15_fixed / public_answers_refine_nocache (original graph)",
+    "reach set of component = BFS": "reach_cache_exact_fixed, reach_answers_exact_fixed (component level) + c15_fixed (original graph)",
+    "or-reach / xor-reach = BFS": "c15_fixed / public_answers_refine_nocache (OrReach/XorReach are the set formulas over the exact reach set)",
+    "independent of order and number of earlier queries": "answers_history_independent_fixed, public_answers_history_independent",
+    "independent of cache capacity": "same theorems (cap : Int, <= 0 clamps to 1); reach_cache_refines_nocache: equal to the cache-free DFS",
+    "results are fresh values (caller edits cannot change later answers)": "caller_edits_noninterference, given results_fresh_fact (provenance table "
+                                                                           "regenerated from algo/*.go every run)",
+    "searched only (tie)": "that the Lean transcription is what the Go code does: line diff model = implementation on every generated case "
+                           "(cache statistics included), BFS monitor on every implementation answer, mutate probe; roaring bitmap / deque / CSR / "
+                           "Go aliasing semantics beyond the extracted provenance table; ReachSlice results alias internal membership bitmaps by "
+                           "documented design (callers must not edit them)",
+}
+
+
 def extra_coverage(ctx, stats):
     return {
         "stated_goals_not_proved": [],
-        "full_statements_refuted_for_live_code": ["reach_cache_exact false", "answers_history_independent false", "C15_full = C15_stmt false"],
-        "full_statements_proved_for_repaired_code": ["reach_cache_exact true", "answers_history_independent true", "C15_stmt true (c15_fixed)"],
+        "refuted_for_the_pre_fix_dfs": ["reach_cache_exact false", "answers_history_independent false", "C15_full = C15_stmt false"],
+        "proved_for_the_live_code": ["reach_cache_exact true", "answers_history_independent true", "C15_stmt true (c15_fixed)",
+                                     "public_answers_refine_nocache", "public_answers_history_independent", "caller_edits_noninterference"],
+        "clause_map": CLAUSES,
         "proved_for_both_variants": ["tarjan_correct (tarjan_correct_full)", "bidir_reachable_correct", "reach_dfs_terminates", "reach_cache_sound_partial"],
         "model_variant": _mode,
         "exhaustive_small_scope": {"graphs_n1": stats.get("gen.exhaustive_graphs_n1", 0), "graphs_n2": stats.get("gen.exhaustive_graphs_n2", 0),
                                    "graphs_n3": stats.get("gen.exhaustive_graphs_n3", 0), "graphs_n4": stats.get("gen.exhaustive_graphs_n4", 0),
-                                   "expected": "2^(n*n) per seed: 2, 16, 512, 65536"},
+                                   "dags_n5": stats.get("gen.exhaustive_dags_n5", 0),
+                                   "expected": "2^(n*n) digraphs per seed: 2, 16, 512, 65536 (n=4 thorough only); 2^10 = 1024 labelled DAGs on 5 nodes"},
     }
 
 
@@ -100,47 +138,61 @@ SPEC = {
     "fallback_level": "other",
     "lean_modules": ["Dawgs.Props.C15"],
     "theorems_by_module": THEOREMS,
-    "gate_modules": ["Dawgs.Model.C15", "Dawgs.Spec.C15", "Dawgs.Proofs.C15", "Dawgs.Proofs.C15Tarjan", "Dawgs.Proofs.C15Lift", "Dawgs.Proofs.C15Sound", "Dawgs.Proofs.C15TarjanFull", "Dawgs.Props.C15"],
+    "gate_modules": ["Dawgs.Model.C15", "Dawgs.Spec.C15", "Dawgs.Proofs.C15", "Dawgs.Proofs.C15Tarjan", "Dawgs.Proofs.C15Lift", "Dawgs.Proofs.C15Sound", "Dawgs.Proofs.C15TarjanFull", "Dawgs.Proofs.C15Round3", "Dawgs.Props.C15"],
+    "regen": do_regen,
     "suites": [{"name": "c15", "model_suite": "c15fixed" if _mode == "fixed" else "c15", "monitor_suite": "c15mon",
                 "keep_prefix": 2, "thorough_seeds": 2, "shrink_budget": 200}],
     "nontrivial": nontrivial,
     "finding_key": finding_key,
     "rule": "cases = corpus (F5 witnesses) + random structured digraphs (G(n,p), dense DAGs, cycle blocks, layered DAGs, multi-edge/self-loop walks; "
             "<= 7 nodes quick / <= 10 thorough; shuffled insertion order, sparse and >32-bit ids) + EVERY digraph with self loops on <= 3 (quick) / <= 4 "
-            "(thorough) nodes, each x cache capacity in {1,2,3,8} (sometimes 0/-2) x a script of scc + 6-12 mixed CanReach/Reach/ReachSlice/OrReach/XorReach "
-            "calls in both directions (and DirectionBoth) from splitmix64(VERIF_SEED); a case is non-trivial when the graph has >= 2 components, "
-            ">= 2 DFS queries share a cached direction and the cache reported >= 1 hit; distinct = distinct op-line sequences (sha1)",
+            "(thorough) nodes + EVERY labelled DAG on 5 nodes, each x cache capacity in {1,2,3,8} (sometimes 0/-2) x a script: either 6-12 mixed "
+            "CanReach/Reach/ReachSlice/OrReach/XorReach calls in both directions (and DirectionBoth), or a SWEEP (every node asked in one direction, "
+            "ancestors first or last, then re-asks) - both with `mutate` probes that overwrite every bitmap the cache handed out so far; from "
+            "splitmix64(VERIF_SEED); a case is non-trivial when the graph has >= 2 components, >= 2 DFS queries share a cached direction and the cache "
+            "reported >= 1 hit; distinct = distinct op-line sequences (sha1)",
     "expected_branches": ["branch.reach.root_cache_hit", "branch.reach.neighbour_cache_hit", "branch.reach.eviction",
                           "branch.reach.visited_skip", "branch.reach.visited_skip_nonroot", "branch.reach.cut_cursor_completed",
                           "branch.scc.multi_component", "branch.scc.nontrivial_component",
-                          "branch.canreach.true", "branch.canreach.false", "branch.reach.non_member"],
+                          "branch.canreach.true", "branch.canreach.false", "branch.reach.non_member",
+                          "branch.reach.cut_component_requeried", "branch.reach.exact_child_into_cut_cursor", "branch.reach.cache_hit_in_cut_cursor",
+                          "branch.reach.evicted_component_requeried", "branch.mutate.bitmap_edited", "branch.capacity.clamped",
+                          "branch.capacity.below_components", "branch.capacity.holds_all", "dir.both", "dir.in", "dir.out"],
     "trusted_base": ["cardinality.Duplex bitmaps modelled as Nat bit sets / sorted lists; CSR adjacency modelled as 'neighbours in dense-index order, de-duplicated' (C14 covers the container)",
                      "gammazero/deque modelled as a list",
                      "model variant compared with the implementation: " + _mode],
     "assumptions": ["node ids are uint64 in the tie; Lean model uses Nat",
                     "single-threaded use of ReachabilityCache (the SIEVE locks are C16's subject)",
-                    "full Tarjan correctness for ALL graphs is a stated goal (tarjan_correct_full); per case it is established by the verified certificate checker checkSCC run on the implementation's (= model's) output"],
+                    "ReachSliceOfComponentContainingMember hands out the cache's own membership bitmaps (documented); the mutate probe and "
+                    "caller_edits_noninterference cover the fresh results only (ReachOf..., OrReach/XorReach accumulators)"],
     "extra_coverage": extra_coverage,
-    "explanation": "Proved for all inputs (Lean, no sorry, axioms within {propext, Classical.choice, Quot.sound}): spec BFS = reachability; SCC certificate "
-                   "checker sound; the transcribed iterative Tarjan terminates, returns a partition and is CORRECT on every well-formed digraph "
-                   "(tarjan_correct); bidirectional ComponentReachable exact and terminating on every digraph and direction; componentReachDFS terminates and "
-                   "never reports/caches an unreachable component (both variants); the REPAIRED DFS keeps every cached binding exact and answers exactly for "
-                   "every contract-satisfying cache, capacity and history, hence history independence; lifted to the original graph: c15_fixed = the whole "
-                   "property for the repaired code. Refuted by concrete witness for the code as it is: reach_cache_exact, answers_history_independent, "
-                   "C15_full (DESIGN F5; corpus + known_findings.json; fix = hooks/C15-fix.patch).",
+    "explanation": "Proved for all inputs (Lean, no sorry, axioms within {propext, Classical.choice, Quot.sound}), for the code as it is in /repo: spec BFS "
+                   "= reachability; the transcribed iterative Tarjan terminates and is correct on every well-formed digraph (partition, same component "
+                   "<=> mutually reachable, acyclic condensation; the component digraph NewComponentGraph builds is topologically numbered); bidirectional "
+                   "ComponentReachable exact and terminating for every digraph and direction; componentReachDFS terminates, keeps every cached binding exact "
+                   "for every contract-satisfying cache, capacity and history, and equals the cache-free DFS; every public answer (CanReach, ReachOf..., "
+                   "ReachSliceOf..., OrReach, XorReach) equals plain BFS on the original graph after any history and under any capacity (c15_fixed, "
+                   "public_answers_refine_nocache, public_answers_history_independent); caller-side edits of returned values cannot change later answers "
+                   "given the provenance table regenerated from algo/*.go (results_fresh_fact, caller_edits_noninterference). The pre-fix DFS (finding "
+                   "F5, fixed in 04b3fb8) stays in the model only to keep its refutation (reach_cache_exact_refuted, c15_full_refuted) and the corpus "
+                   "regression. See clause_map in this file for clause -> theorem.",
 }
 
 MANIFEST = {
     "category": "proof",
     "technique": "Lean 4 invariant proofs over a transcription of algo/scc.go + algo/reach.go (bidirectional BFS, reach DFS over the proved SIEVE contract, verified SCC certificate checker) + differential correspondence with the Go code + BFS monitor on every answer",
     "text": "Lean theorems over ALL digraphs, directions, cache capacities and query histories for a line-by-line transcription of algo/scc.go and "
-            "algo/reach.go over the proved C16 SIEVE contract: iterative Tarjan correct (partition, mutual reachability, acyclic condensation) via a "
-            "verified certificate checker; bidirectional ComponentReachable exact; reach DFS terminates and is sound; for the repaired DFS every cached "
-            "entry stays exact under every query, eviction choice and capacity, answers are history independent, and the whole property (every public "
-            "answer = plain BFS on the original graph) is a theorem (c15_fixed). For the code as it is the full statements are refuted by a two-query "
-            "witness (known finding F5, fix patch proposed). Model = implementation on every generated case (all digraphs <= 4 nodes x capacities, "
-            "random <= 10 nodes x scripts of 6-12 mixed calls, cache statistics included), and a BFS monitor judges every implementation answer.",
-    "note": "Trusted: Lean kernel; the transcription (checked by the differential tie); roaring bitmaps, deque, CSR container (C14) modelled as lists / "
-            "Nat bit sets. The live code violates the reach-cache part (F5) until hooks/C15-fix.patch lands; then set MODEL_MODE = 'fixed' in "
-            "lib/props/c15.py and the known_findings entry to 'fixed'.",
+            "algo/reach.go (as they are in /repo, F5 fix included) over the proved C16 SIEVE contract: the explicit-stack Tarjan is correct (partition, "
+            "same component <=> mutually reachable, acyclic and topologically numbered component graph); bidirectional ComponentReachable is exact; the "
+            "reach DFS terminates, keeps every cached entry exact under every query, eviction choice and capacity and equals the cache-free DFS; every "
+            "public answer (can-reach, reach set, slices, or-reach, xor-reach) equals plain BFS on the original graph independent of query order, count "
+            "and capacity (c15_fixed, public_answers_history_independent); results are fresh values, so caller-side edits cannot change later answers "
+            "(provenance table extracted from the sources every run). Model = implementation on every generated case (all digraphs <= 4 nodes and all "
+            "DAGs on 5 nodes x capacities, random <= 10 nodes, mixed and sweep scripts with mutate probes, cache statistics included); a BFS monitor "
+            "judges every implementation answer.",
+    "note": "Trusted: Lean kernel; the transcription (checked by the differential tie); roaring bitmaps, deque, CSR container (C14) and Go aliasing "
+            "beyond the extracted provenance table, modelled as lists / Nat bit sets. ReachSliceOfComponentContainingMember shares the cache's own "
+            "membership bitmaps by documented design: callers must treat them as read-only. Finding F5 (incomplete reach set cached after a "
+            "visited-skip) was found by this check, fixed in /repo 04b3fb8; the pre-fix DFS is kept in the model for its refutation theorems and "
+            "the corpus cases guard against its return.",
 }
